@@ -44,12 +44,17 @@ def cfg_json(cfg):
     return {k: (v if k == "kind" else rat(v)) for k, v in cfg.items()}
 
 
-def make_cfg(cfg):
+def make_cfg(cfg, types=None):
+    """`types`: abstract key -> one of TYPES (the same value as an int, a NumPy scalar, a 0-d array ...)"""
     from pewlib.config import Config, SpotConfig
 
+    t = types or {}
     if cfg["kind"] == "raster":
-        return Config(spotsize=cfg["spotsize"], speed=cfg["speed"], scantime=cfg["scantime"])
-    return SpotConfig(spotsize=cfg["sx"], spotsize_y=cfg["sy"])
+        return Config(spotsize=typed(cfg["spotsize"], t.get("spotsize")), speed=typed(cfg["speed"], t.get("speed")),
+                      scantime=typed(cfg["scantime"], t.get("scantime")))
+    if t.get("sy") == "omitted" and cfg["sx"] == cfg["sy"]:
+        return SpotConfig(spotsize=typed(cfg["sx"], t.get("sx")))
+    return SpotConfig(spotsize=typed(cfg["sx"], t.get("sx")), spotsize_y=typed(cfg["sy"], t.get("sy")))
 
 
 # ----------------------------------------------------------------------------- SRR inputs (shared with C09)
@@ -195,10 +200,62 @@ def stack_shapes(case):
 
 
 # ----------------------------------------------------------------------------- helpers
+MIN_NORMAL, MAX_FLOAT = Fraction(2) ** -1022, Fraction(sys.float_info.max)
+
+
+def in_range(q: Fraction) -> bool:
+    """zero, or inside the normal exponent range of float64 (where `Pew.fl` is the float64 rounding and a relative
+    tolerance makes sense)"""
+    return q == 0 or MIN_NORMAL <= abs(q) <= MAX_FLOAT
+
+
 def fclose(a: float, q: Fraction, rel=REL) -> bool:
     if a == q:
         return True
+    if not in_range(q):  # the exact value under/overflows: nothing a relative tolerance can say (recorded by the caller)
+        return True
+    if math.isinf(a) or math.isnan(a):
+        return False
     return abs(Fraction(a) - q) <= Fraction(rel) * max(abs(Fraction(a)), abs(q))
+
+
+def f32_exact(v) -> bool:
+    """a value float32 keeps exactly and whose products with another such value and an index <= 128 stay exact in float32:
+    numerator below 128, denominator a power of two up to 8"""
+    try:
+        f = Fraction(v)
+    except (TypeError, ValueError, OverflowError):
+        return False
+    return f > 0 and f.numerator < 128 and f.denominator in (1, 2, 4, 8)
+
+
+TYPES = ("float", "int", "i64", "f64", "arr0", "f32")
+
+
+def typed(v, t):
+    """the value `v` (a float) as an object of another numeric type with the SAME value; `float` when that type cannot hold it"""
+    v = float(v)
+    if t == "int" and v.is_integer() and abs(v) < 2 ** 53:
+        return int(v)
+    if t == "i64" and v.is_integer() and abs(v) < 2 ** 53:
+        return np.int64(int(v))
+    if t == "f64":
+        return np.float64(v)
+    if t == "arr0":
+        return np.array(v)  # a 0-d array: what SRRConfig.from_array hands to the constructor
+    if t == "f32" and f32_exact(v):
+        return np.float32(v)
+    return v
+
+
+def type_used(v, t):
+    """the type `typed` really produced"""
+    w = typed(v, t)
+    return {int: "int", float: "float"}.get(type(w), t)
+
+
+DTYPES = {"f8": np.float64, "f4": np.float32, "i8": np.int64, "i4": np.int32, "u2": np.uint16}
+DTYPE_CAP = {"f8": 2 ** 53, "f4": 2 ** 24, "i8": 2 ** 62, "i4": 2 ** 31 - 1, "u2": 2 ** 16 - 1}
 
 
 def ext_close(vals, rats) -> bool:
@@ -246,9 +303,22 @@ def summarize(res, cols, off, full):
     return out
 
 
-def token_data(rows, cols, fields):
-    """structured float64 array; `fields` = [(name, k)]: pixel (r, c) of field `name` holds r*cols + c + 1 + k*rows*cols"""
-    data = np.empty((rows, cols), dtype=[(n, np.float64) for n, _ in fields])
+def token_data(rows, cols, fields, dtypes=None, layout="C"):
+    """structured array; `fields` = [(name, k)]: pixel (r, c) of field `name` holds r*cols + c + 1 + k*rows*cols.
+    `dtypes`: one key of DTYPES per field (float64 where the tokens would not fit); `layout`: "C", "F" (Fortran order) or
+    "view" (a strided view of a larger array)"""
+    top = rows * cols * (max([k for _, k in fields] + [0]) + 1)
+    dts = []
+    for i, _ in enumerate(fields):
+        d = (dtypes or [])[i % len(dtypes)] if dtypes else "f8"
+        dts.append(d if d in DTYPES and top <= DTYPE_CAP[d] else "f8")
+    dtype = [(n, DTYPES[d]) for (n, _), d in zip(fields, dts)]
+    if layout == "view" and rows * cols <= 200_000:
+        data = np.zeros((2 * rows + 1, 3 * cols + 2), dtype=dtype)[1::2, 2::3]
+    elif layout == "F" and rows * cols <= 1_000_000:
+        data = np.empty((cols, rows), dtype=dtype).T
+    else:
+        data = np.empty((rows, cols), dtype=dtype)
     base = np.arange(1, rows * cols + 1, dtype=np.float64).reshape(rows, cols)
     for n, k in fields:
         data[n] = base + k * rows * cols
@@ -554,55 +624,69 @@ class C10(Prop):
             yield {"kind": "get", "cfg": cfg, "rows": rows, "cols": cols, "nel": 1, "element": 0, "rect": [0, rows, 0, cols], "modes": ["own"] * 4}
 
     # ------------------------------------------------------------------ evaluation
-    def make_laser(self, cfg, rows, cols, nel, tokens=True):
+    def make_laser(self, cfg, rows, cols, nel, tokens=True, types=None, dtypes=None, layout="C"):
         from pewlib.laser import Laser
 
         names = ["A", "B"][:nel]
-        if not tokens:
-            data = np.empty((rows, cols), dtype=[(n, np.uint8) for n in names])
+        if not tokens:  # only the shape matters: a read-only broadcast view of one pixel, so that any shape costs no memory
+            data = np.broadcast_to(np.zeros((), dtype=[(n, np.uint8) for n in names]), (rows, cols))
         else:
-            data = token_data(rows, cols, list(zip(names, range(nel))))
-        return Laser(data, config=make_cfg(cfg)), names
+            data = token_data(rows, cols, list(zip(names, range(nel))), dtypes, layout)
+        return Laser(data, config=make_cfg(cfg, types)), names
 
-    def observe_extent(self, laser, cfg, rows, cols, ctx):
+    def observe_extent(self, laser, cfg, rows, cols, ctx, feats=None):
         """pixel sizes, Laser.extent, data_extent and their array round trip of the laser AS IT IS NOW against the
-        driver's model/spec for `cfg`, `rows`, `cols` -> (impl, model, spec, spec_ok, model_ok).
-        The array form is compared as NumPy built it (dtype field names in order, shape, values), and `from_array` of
-        Config and SpotConfig is run on the real arrays of all three configuration classes."""
+        driver's model/spec for `cfg`, `rows`, `cols` (the state the harness APPLIED, never read back from pewlib)
+        -> (impl, model, spec, spec_ok, model_ok).
+        The array form is compared as NumPy built it (dtype field names in order, field dtypes, shape, values), the
+        configuration read back from it must hold EXACTLY the applied values, and `from_array` of Config and SpotConfig is
+        run on the real arrays of all three configuration classes."""
         from pewlib.config import Config, SpotConfig
         from pewlib.srr.config import SRRConfig
 
+        feats = set() if feats is None else feats
         conf = laser.config
         own = conf.to_array()
         rt = type(conf).from_array(own)
         if cfg["kind"] == "raster":
-            others = [SpotConfig(spotsize=cfg["spotsize"], spotsize_y=cfg["speed"]).to_array(),
-                      SRRConfig(spotsize=cfg["spotsize"], speed=cfg["speed"], scantime=cfg["scantime"]).to_array()]
+            applied = [cfg["spotsize"], cfg["speed"], cfg["scantime"]]
+            others = [lambda: SpotConfig(spotsize=cfg["spotsize"], spotsize_y=cfg["speed"]).to_array(),
+                      lambda: SRRConfig(spotsize=cfg["spotsize"], speed=cfg["speed"], scantime=cfg["scantime"]).to_array()]
         else:
-            others = [Config(spotsize=cfg["sx"], speed=cfg["sy"], scantime=1.0).to_array(),
-                      SRRConfig(spotsize=cfg["sx"], speed=cfg["sy"], scantime=0.25).to_array()]
+            applied = [cfg["sx"], cfg["sy"]]
+            others = [lambda: Config(spotsize=cfg["sx"], speed=cfg["sy"], scantime=1.0).to_array(),
+                      lambda: SRRConfig(spotsize=cfg["sx"], speed=cfg["sy"], scantime=0.25).to_array()]
+        if all(Fraction(1, 10 ** 9) <= Fraction(v) <= 10 ** 9 for v in applied):
+            others = [f() for f in others]
+        else:  # extreme magnitudes: the other classes' constructors (SRR warm-up in samples) are outside their own domain
+            others = []
         encs = [enc_rec(a) for a in [own] + others]
         if any(e is None for e in encs):
             raise core.InternalError("a configuration array is not a 0-d / 1-d structured array of floats and (k, 2) integer tables")
+
+        def values_of(c):
+            if isinstance(c, SpotConfig):
+                return {"kind": "spot", "values": [rat(float(c.spotsize)), rat(float(c.spotsize_y))]}
+            return {"kind": "raster", "values": [rat(float(c.spotsize)), rat(float(c.speed)), rat(float(c.scantime))]}
 
         def from_arr(cls, a):
             try:
                 c = cls.from_array(a)
             except Exception as e:
                 return {"raises": type(e).__name__}
-            if isinstance(c, SpotConfig):
-                return {"kind": "spot", "values": [rat(float(c.spotsize)), rat(float(c.spotsize_y))]}
-            return {"kind": "raster", "values": [rat(float(c.spotsize)), rat(float(c.speed)), rat(float(c.scantime))]}
+            return values_of(c)
 
         impl = {"pw": float(conf.get_pixel_width()), "ph": float(conf.get_pixel_height()),
                 "extent": [float(v) for v in laser.extent],
                 "data_extent": [float(v) for v in conf.data_extent((rows, cols))],
-                "array": encs[0],
+                "array": encs[0], "dtypes": [own.dtype[n].str for n in own.dtype.names],
                 "roundtrip": {"pw": float(rt.get_pixel_width()), "ph": float(rt.get_pixel_height()),
-                              "extent": [float(v) for v in rt.data_extent((rows, cols))]},
+                              "extent": [float(v) for v in rt.data_extent((rows, cols))], **values_of(rt)},
                 "from_arrays": [{"raster": from_arr(Config, a), "spot": from_arr(SpotConfig, a)} for a in [own] + others]}
         rep = ctx.driver.call("c10.extent", cfg=cfg_json(cfg), rows=rows, cols=cols, arrays=encs)
         m, s = rep["model"], rep["spec"]
+        if not rep["positive"]:
+            raise core.InternalError("a configuration parameter is not positive")
 
         def agrees(pw, ph, ext):
             return (fclose(impl["pw"], unrat(pw)) and fclose(impl["ph"], unrat(ph))
@@ -617,28 +701,43 @@ class C10(Prop):
                 return o.get("raises") == j.get("raises")
             return o["kind"] == j["kind"] and o["values"] == j["values"]
 
-        spec_ok = agrees(s["pw"], s["ph"], s["extent"])
+        # "these values survive the configuration's array round trip": the configuration read back holds exactly what was applied
+        survived = impl["roundtrip"]["kind"] == cfg["kind"] and impl["roundtrip"]["values"] == [rat(v) for v in applied]
+        if not all(in_range(unrat(v)) for v in [s["pw"], s["ph"]] + list(s["extent"])):
+            feats.add("extreme: an exact value outside the normal float64 range (that value recorded only)")
+        else:  # recorded only: is the implementation bit-for-bit the float64 pipeline of the model (`fl`)?
+            mf = rep["modelF"]
+            same = ([rat(impl["pw"]), rat(impl["ph"])] == [mf["pw"], mf["ph"]] and [rat(v) for v in impl["extent"]] == mf["extent"])
+            feats.add("extent bit-for-bit the float64 model" if same else "extent differs from the float64 model in the last bits (recorded only)")
+        spec_ok = agrees(s["pw"], s["ph"], s["extent"]) and survived
         model_ok = (agrees(m["pw"], m["ph"], m["extent"]) and "extent" in m["roundtrip"]
                     and ext_close(impl["roundtrip"]["extent"], m["roundtrip"]["extent"]) and m["data_extent"] == m["extent"]
-                    and canon_eq(impl["array"], m["array"])
+                    and same_outcome(impl["roundtrip"], m["roundtrip"])
+                    and canon_eq(impl["array"], m["array"]) and impl["dtypes"] == m["dtypes"]
                     and all(same_outcome(o[k], j[k]) for o, j in zip(impl["from_arrays"], m["from_arrays"]) for k in ("raster", "spot")))
         return impl, m, s, spec_ok, model_ok
 
     def eval_extent(self, case, ctx):
         cfg, rows, cols = case["cfg"], case["rows"], case["cols"]
-        laser, _ = self.make_laser(cfg, rows, cols, 1, tokens=False)
-        impl, m, s, spec_ok, model_ok = self.observe_extent(laser, cfg, rows, cols, ctx)
+        laser, _ = self.make_laser(cfg, rows, cols, 1, tokens=False, types=case.get("types"))
         feats = {"extent", cfg["kind"], "side>=1000" if max(rows, cols) >= 1000 else "side<1000"}
+        impl, m, s, spec_ok, model_ok = self.observe_extent(laser, cfg, rows, cols, ctx, feats)
         if min(rows, cols) == 1:
             feats.add("side=1")
+        for lim, name in ((4096, "side>=4096"), (2 ** 16, "side>=2^16"), (2 ** 24, "side>=2^24")):
+            if max(rows, cols) >= lim:
+                feats.add(name)
+        for k, t in sorted((case.get("types") or {}).items()):
+            if k in cfg:
+                feats.add("parameter type: " + type_used(cfg[k], t))
         return outcome(impl, m, s, spec_ok=spec_ok, model_ok=model_ok, features=feats)
 
-    def read(self, laser, fields, element, ext, cols, rows, full):
+    def read(self, laser, fields, element, ext, cols, rows, full, kwargs=None):
         """`fields`: [(name, k)] of the token-carrying fields (pixel (r, c) of field k holds r*cols + c + 1 + k*rows*cols);
         `element`: index into `fields`, or None for the structured read"""
         el = None if element is None else fields[element][0]
         try:
-            res = laser.get(el, extent=ext)
+            res = laser.get(el, extent=ext, **(kwargs or {}))
         except Exception as e:
             return {"raises": type(e).__name__, "msg": str(e)[:200]}
         if el is None:
@@ -646,20 +745,50 @@ class C10(Prop):
             return parts[0] if all(canon_eq(p, parts[0]) for p in parts) else {"fields_differ": parts}
         return summarize(res, cols, fields[element][1] * rows * cols, full)
 
-    def observe_get(self, laser, fields, element, cfg, rows, cols, rect, modes, full, ctx, feats):
-        """one read of the region bounded by the pixel boundaries `rect` = [r0, r1, c0, c1] of the laser AS IT IS NOW
-        (`modes`: how the four float bounds are computed; "own" = the laser's own reported extent) against the driver's
-        model/spec for `cfg`, `rows`, `cols` -> (impl, model, spec, undetermined, hyp)"""
+    def float_bounds(self, laser, cfg, rect, modes):
+        """the four float bounds of the pixel boundaries `rect`, computed from the APPLIED parameters `cfg` the way a caller
+        would (pixel width = the float product speed * scantime), or the extent pewlib reports itself ("own")"""
         r0, r1, c0, c1 = rect
         if modes[0] == "own":
-            ext = tuple(float(v) for v in laser.extent)
+            return tuple(float(v) for v in laser.extent)
+        if cfg["kind"] == "raster":
+            px, py = float(cfg["speed"]) * float(cfg["scantime"]), float(cfg["spotsize"])
+            pw_exact, ph_exact = Fraction(cfg["speed"]) * Fraction(cfg["scantime"]), Fraction(cfg["spotsize"])
         else:
-            px, py = laser.config.get_pixel_width(), laser.config.get_pixel_height()
-            pw_exact = Fraction(cfg["speed"]) * Fraction(cfg["scantime"]) if cfg["kind"] == "raster" else Fraction(cfg["sx"])
-            ph_exact = Fraction(cfg["spotsize"]) if cfg["kind"] == "raster" else Fraction(cfg["sy"])
-            ext = (bound(modes[0], c0, px, pw_exact), bound(modes[1], c1, px, pw_exact),
-                   bound(modes[2], r0, py, ph_exact), bound(modes[3], r1, py, ph_exact))
-        impl = self.read(laser, fields, element, ext, cols, rows, full)
+            px, py = float(cfg["sx"]), float(cfg["sy"])
+            pw_exact, ph_exact = Fraction(cfg["sx"]), Fraction(cfg["sy"])
+        return (bound(modes[0], c0, px, pw_exact), bound(modes[1], c1, px, pw_exact),
+                bound(modes[2], r0, py, ph_exact), bound(modes[3], r1, py, ph_exact))
+
+    def observe_get(self, laser, fields, element, cfg, rows, cols, rect, modes, full, ctx, feats, opts=None):
+        """one read of the region bounded by the pixel boundaries `rect` = [r0, r1, c0, c1] of the laser AS IT IS NOW
+        (`modes`: how the four float bounds are computed from the applied parameters; "own" = the laser's own reported
+        extent) against the driver's model/spec for `cfg`, `rows`, `cols` -> (impl, model, spec, undetermined, hyp, model_ok).
+        `opts`: {"btypes": type of each bound, "container": tuple | list | array, "calibrate": omit | False | None}"""
+        r0, r1, c0, c1 = rect
+        opts = opts or {}
+        ext = self.float_bounds(laser, cfg, rect, modes)
+        if not all(math.isfinite(v) for v in ext):
+            raise core.InternalError("a float bound overflowed")
+        given = list(ext)
+        pxf = float(cfg["speed"]) * float(cfg["scantime"]) if cfg["kind"] == "raster" else float(cfg["sx"])
+        pyf = float(cfg["spotsize"]) if cfg["kind"] == "raster" else float(cfg["sy"])
+        for i, t in enumerate(opts.get("btypes") or []):
+            if t == "f32":  # only where float32 holds bound and pixel size exactly (NumPy divides in float32 then)
+                p = pxf if i < 2 else pyf
+                if not (f32_exact(p) and float(np.float32(ext[i])) == ext[i] and abs(ext[i]) < 2 ** 20):
+                    t = "float"
+            given[i] = typed(ext[i], t)
+            feats.add("bound type: " + type_used(ext[i], t) if not (t == "f32" and isinstance(given[i], np.float32)) else "bound type: f32")
+        cont = opts.get("container", "tuple")
+        arg = tuple(given) if cont == "tuple" else (list(given) if cont == "list" else np.array([float(v) for v in given]))
+        if cont != "tuple":
+            feats.add("extent given as " + cont)
+        kwargs = {}
+        if opts.get("calibrate", "omit") != "omit":
+            kwargs["calibrate"] = {"False": False, "None": None}[opts["calibrate"]]
+            feats.add("calibrate=" + opts["calibrate"])
+        impl = self.read(laser, fields, element, arg, cols, rows, full, kwargs)
         rep = ctx.driver.call("c10.get", cfg=cfg_json(cfg), rows=rows, cols=cols, full=full,
                               extent=[rat(v) for v in ext], rect=rect)
         # margins are in units of 1e-6 of the quotient; 1e-3 there = 1e-9 of the quotient
@@ -683,26 +812,53 @@ class C10(Prop):
             feats.add("empty-rect")
         if (r1 == rows and r0 < r1) or (c1 == cols and c0 < c1):
             feats.add("touches-last")
-        return impl, rep["model"], rep["spec"], undet, hyp
+        for lim, name in ((4096, "boundary index >= 4096"), (2 ** 16, "boundary index >= 2^16")):
+            if max(rect) >= lim:
+                feats.add(name)
+        # the float64 pipeline of the model; when every bound is near its boundary (hypotheses of `get_float_config`) the
+        # theorem says it IS the specification
+        normal = in_range(unrat(rep["pwF"])) and in_range(unrat(rep["phF"])) and all(in_range(Fraction(v)) for v in ext) \
+            and in_range(Fraction(cfg["speed"]) * Fraction(cfg["scantime"]) if cfg["kind"] == "raster" else Fraction(1))
+        model_ok = canon_eq(impl, rep["model"])
+        if all(rep["near"]) and max(rows, cols) <= 2 ** 28:
+            feats.add("bounds near their boundaries: float64 theorem applies")
+            if not canon_eq(rep["modelF"], rep["spec"]):
+                raise core.InternalError("get_float_config contradicted by the driver")
+        if normal:
+            model_ok = model_ok and canon_eq(impl, rep["modelF"])
+        else:
+            feats.add("extreme: a value outside the normal float64 range (float model not compared)")
+        return impl, rep["model"], rep["spec"], undet, hyp, model_ok
 
     def eval_get(self, case, ctx, rects):
         cfg, rows, cols, nel = case["cfg"], case["rows"], case["cols"], case["nel"]
-        laser, names = self.make_laser(cfg, rows, cols, nel)
+        laser, names = self.make_laser(cfg, rows, cols, nel, types=case.get("types"), dtypes=case.get("dtypes"),
+                                       layout=case.get("layout", "C"))
         fields = list(zip(names, range(nel)))
         full = rows * cols <= 64
         impl, model, spec = [], [], []
         feats = {"get", cfg["kind"], "structured-read" if case["element"] is None else "element-read"}
         undet = False
-        hyp = True
+        hyp = model_ok = True
         for rect, modes in rects:
-            i, m, s, u, h = self.observe_get(laser, fields, case["element"], cfg, rows, cols, rect, modes, full, ctx, feats)
+            i, m, s, u, h, mok = self.observe_get(laser, fields, case["element"], cfg, rows, cols, rect, modes, full, ctx, feats,
+                                                  case.get("opts"))
             impl.append(i)
             model.append(m)
             spec.append(s)
             undet = undet or u
             hyp = hyp and h
+            model_ok = model_ok and mok
         feats.add("side>=1000" if max(rows, cols) >= 1000 else ("side<=8" if max(rows, cols) <= 8 else "side 9..999"))
-        return outcome(impl, model, spec, undetermined=undet, hyp=hyp, features=feats)
+        for k, t in sorted((case.get("types") or {}).items()):
+            if k in cfg:
+                feats.add("parameter type: " + type_used(cfg[k], t))
+        for d in sorted(set(laser.data.dtype[n].str for n in laser.data.dtype.names)):
+            feats.add("data dtype " + d)
+        if case.get("layout", "C") != "C":
+            feats.add("data layout " + ("Fortran order" if laser.data.flags["F_CONTIGUOUS"] and not laser.data.flags["C_CONTIGUOUS"]
+                                        else ("strided view" if not laser.data.flags["C_CONTIGUOUS"] else "C")))
+        return outcome(impl, model, spec, model_ok=model_ok, undetermined=undet, hyp=hyp, features=feats)
 
     def srr_layers(self, shapes):
         layers = []
@@ -849,7 +1005,7 @@ class C10(Prop):
             for ob in step["obs"]:
                 nobs += 1
                 if ob["o"] == "extent":
-                    i, m, s, sok, mok = self.observe_extent(laser, cfg, rows, cols, ctx)
+                    i, m, s, sok, mok = self.observe_extent(laser, cfg, rows, cols, ctx, feats)
                     spec_ok, model_ok = spec_ok and sok, model_ok and mok
                 else:
                     if ob["o"] == "own":
@@ -857,9 +1013,9 @@ class C10(Prop):
                     else:  # a rectangle drawn for another shape (shrunk history) is clipped to the image
                         r0, r1, c0, c1 = ob["rect"]
                         rect, modes = [min(r0, rows), min(r1, rows), min(c0, cols), min(c1, cols)], ob["modes"]
-                    i, m, s, u, h = self.observe_get(laser, fields, element, cfg, rows, cols, rect, modes, full, ctx, feats)
+                    i, m, s, u, h, mok = self.observe_get(laser, fields, element, cfg, rows, cols, rect, modes, full, ctx, feats)
                     undet, hyp = undet or u, hyp and h
-                    spec_ok, model_ok = spec_ok and canon_eq(i, s), model_ok and canon_eq(i, m)
+                    spec_ok, model_ok = spec_ok and canon_eq(i, s), model_ok and mok
                     feats.add("structured-read" if element is None else "element-read")
                 impl.append(i)
                 model.append(m)
